@@ -34,6 +34,9 @@ type ScalarCase struct {
 	// Again: url: values of further occurrences of OUR parameter, placed right before ours
 	// (?k=&k=abc): every occurrence is judged on its own
 	Again []string `json:"again,omitempty"`
+	// Plus: url (the raw form): blanks of our value are written as '+' (form encoding) - the URL
+	// then holds no '%' at all, and the value is still the one with blanks
+	Plus bool `json:"plus,omitempty"`
 	// listmap: one flag per list element, true = that element lacks our key
 	// (nil = the list holds the same map twice, present or missing per Missing)
 	ListMissing []bool `json:"list_missing,omitempty"`
@@ -278,6 +281,11 @@ func (c *ScalarCase) prepare() func() error {
 				ours = append(ours, scalarKey+"="+a)
 			}
 			ours = append(ours, scalarKey+"="+v.String())
+			if c.Plus && c.Carrier == "url" {
+				for i := range ours {
+					ours[i] = strings.ReplaceAll(ours[i], " ", "+")
+				}
+			}
 			pos := c.Pos
 			if pos > len(params) {
 				pos = len(params)
